@@ -37,6 +37,11 @@ pub enum Sess {
     /// request (HEADERS, END_STREAM) and only then with the PING acknowledgement: a request in flight
     /// while the endpoint announces its shutdown
     H2RawLate,
+    /// HTTP/2 session on the ping channel (session timeout 1 s) of a frame-level client that
+    /// acknowledges the endpoint's PING only after `ack_delay_ms`; the shutdown is submitted
+    /// 850 ms into the session, so the wind-down lasts beyond the session's own timeout.
+    /// Generated alone.
+    PingH2SlowAck { ack_delay_ms: u16 },
     /// HTTP/1.1 connection on the speedtest / reverse-proxy channel without a request
     SpeedIdle,
     RpIdle,
@@ -107,6 +112,8 @@ struct Seen {
     received: usize,
     intact: bool,
     goaway: Option<bool>,
+    /// the wind-down was completed: a second GOAWAY (with the real last stream) before the close
+    final_goaway: Option<bool>,
 }
 
 type Go = tokio::sync::watch::Receiver<Option<Instant>>;
@@ -295,8 +302,12 @@ async fn client(
             seen.intact &= got == pattern(0, pre);
             let _ = peer.to_client.send(PeerMsg::Eof);
         }
-        Sess::H2RawLate => {
+        Sess::H2RawLate | Sess::PingH2SlowAck { .. } => {
             let mut io = io;
+            let (with_request, ack_delay) = match s {
+                Sess::PingH2SlowAck { ack_delay_ms } => (false, ack_delay_ms as u64),
+                _ => (true, 0),
+            };
             let frame = |ty: u8, flags: u8, stream: u32, payload: &[u8]| -> Vec<u8> {
                 let mut f = vec![(payload.len() >> 16) as u8, (payload.len() >> 8) as u8, payload.len() as u8, ty, flags];
                 f.extend_from_slice(&stream.to_be_bytes());
@@ -346,7 +357,11 @@ async fn client(
                     None => break,
                 }
             }
-            if let Some(p) = ping {
+            if let (Some(p), false) = (&ping, with_request) {
+                tokio::time::sleep(Duration::from_millis(ack_delay)).await;
+                let _ = io.write_all(&frame(6, 1, 0, p)).await;
+            }
+            if let (Some(p), true) = (ping, with_request) {
                 // HPACK, literal fields without indexing: :method CONNECT, :authority _check, proxy-authorization
                 let mut block = vec![0x02, 0x07];
                 block.extend_from_slice(b"CONNECT");
@@ -378,6 +393,9 @@ async fn client(
             }
             seen.intact = true;
             seen.goaway = Some(goaways > 0);
+            if !with_request {
+                seen.final_goaway = Some(goaways >= 2);
+            }
         }
         Sess::H2Idle(n) | Sess::H2Tunnels { n, .. } | Sess::H2LateRequest { n, .. } => {
             let rec = Arc::new(Mutex::new(vec![]));
@@ -501,14 +519,17 @@ pub struct SessionSuite;
 fn run_case(c: &Case) -> Verdict {
     aio::block_on_paused(async move {
         aio::skew_clock().await;
+        let slow_ping = c.sessions.iter().any(|s| matches!(s, Sess::PingH2SlowAck { .. }));
         let spec = CoreSpec {
             ping_hosts: vec![("ping.x".into(), 1)],
             speedtest: true,
             speed_hosts: vec![("speed.x".into(), 2)],
             reverse_proxy: Some(("127.0.0.1:9".parse().unwrap(), "/api".into())),
+            handshake_timeout: if slow_ping { Duration::from_secs(1) } else { CoreSpec::default().handshake_timeout },
             ..CoreSpec::default()
         };
         let world: World = spec.build().expect("core");
+        let began = Instant::now();
         let scripted = Scripted::new(|_| Outcome::Silent);
         let _guard = scripted.install(&world);
         let (ready_tx, mut ready_rx) = tokio::sync::mpsc::channel(16);
@@ -521,6 +542,7 @@ fn run_case(c: &Case) -> Verdict {
                 Sess::PingIdle => (Proto::Http1, ChannelView::Ping, "ping.x", 4096),
                 Sess::H1Tunnel { buf, .. } => (Proto::Http1, ChannelView::Tunnel, "main.x", (*buf as usize).max(256)),
                 Sess::H2Idle(_) | Sess::H2Tunnels { .. } | Sess::H2LateRequest { .. } | Sess::H2RawLate => (Proto::Http2, ChannelView::Tunnel, "main.x", 64 * 1024),
+                Sess::PingH2SlowAck { .. } => (Proto::Http2, ChannelView::Ping, "ping.x", 64 * 1024),
                 Sess::SpeedIdle => (Proto::Http1, ChannelView::Speedtest, "speed.x", 4096),
                 Sess::RpIdle => (Proto::Http1, ChannelView::ReverseProxy, "rp.x", 4096),
                 Sess::SpeedDownload { buf, .. } => (Proto::Http1, ChannelView::Speedtest, "speed.x", (*buf as usize).max(256)),
@@ -541,7 +563,11 @@ fn run_case(c: &Case) -> Verdict {
                 _ => break,
             }
         }
-        tokio::time::sleep(Duration::from_millis(c.submit_at_ms as u64)).await;
+        if slow_ping {
+            tokio::time::sleep_until(began + Duration::from_millis(850)).await;
+        } else {
+            tokio::time::sleep(Duration::from_millis(c.submit_at_ms as u64)).await;
+        }
         let t0 = Instant::now();
         world.shutdown.lock().unwrap().submit();
         let _ = go_tx.send(Some(t0));
@@ -584,6 +610,9 @@ fn run_case(c: &Case) -> Verdict {
                 s,
                 seen[i].received
             );
+            if let Some(false) = seen[i].final_goaway {
+                return viol("session:wind-down-cut-short", format!("{:?}: the session timeout fell into the wind-down and the session was ended without the final GOAWAY ({})", s, seen[i].end));
+            }
             if let Some(g) = seen[i].goaway {
                 crate::ensure!(g, "session:h2-no-goaway", "{:?}: the HTTP/2 session ended without a GOAWAY frame ({})", s, seen[i].end);
             }
@@ -624,7 +653,7 @@ impl Suite for SessionSuite {
         "session-wind-down"
     }
     fn rule(&self) -> String {
-        "1-4 real sessions over in-memory transports (virtual clock, scripted forwarder) in generated states - HTTP/1.1 tunnel-, ping-, speedtest- or reverse-proxy-channel connection without a request, HTTP/1.1 speedtest download of 1 MiB of which the client has read 0-20000 bytes and resumes reading 0-3000 ms after the submission, HTTP/1.1 tunnel whose destination pushed 1-6 chunks of 1-6000 bytes into a 256-8192 byte transport of which the client has read a generated part and resumes reading 0-3000 ms after the submission, HTTP/2 session after 0-2 health checks, the same with one more request that the client sends 0-3 ms after the submission (in flight when the endpoint announces its shutdown), a frame-level HTTP/2 client that answers GOAWAY + PING with a new request before it acknowledges the PING, HTTP/2 session with 1-3 open tunnels that both ends finish 0-3000 ms after the submission - then Shutdown::submit() at a generated moment and completion() awaited the way main.rs does; oracle: every session handler ends, every client sees the end, HTTP/2 clients see a GOAWAY frame, HTTP/1.1 downloads delivered during the wind-down are a prefix of the destination's stream, completion() returns neither before the last handler has ended nor more than 5 ms after it; non-trivial = a session that cannot finish at once (unread download or open tunnels) or several sessions".into()
+        "1-4 real sessions over in-memory transports (virtual clock, scripted forwarder) in generated states - HTTP/1.1 tunnel-, ping-, speedtest- or reverse-proxy-channel connection without a request, HTTP/1.1 speedtest download of 1 MiB of which the client has read 0-20000 bytes and resumes reading 0-3000 ms after the submission, HTTP/1.1 tunnel whose destination pushed 1-6 chunks of 1-6000 bytes into a 256-8192 byte transport of which the client has read a generated part and resumes reading 0-3000 ms after the submission, HTTP/2 session after 0-2 health checks, the same with one more request that the client sends 0-3 ms after the submission (in flight when the endpoint announces its shutdown), a frame-level HTTP/2 client that answers GOAWAY + PING with a new request before it acknowledges the PING, an HTTP/2 ping-channel session (session timeout 1 s) whose frame-level client acknowledges the PING 200-600 ms after a shutdown submitted 850 ms into the session (the wind-down must be completed - final GOAWAY - although it crosses the session's own timeout), HTTP/2 session with 1-3 open tunnels that both ends finish 0-3000 ms after the submission - then Shutdown::submit() at a generated moment and completion() awaited the way main.rs does; oracle: every session handler ends, every client sees the end, HTTP/2 clients see a GOAWAY frame, HTTP/1.1 downloads delivered during the wind-down are a prefix of the destination's stream, completion() returns neither before the last handler has ended nor more than 5 ms after it; non-trivial = a session that cannot finish at once (unread download or open tunnels) or several sessions".into()
     }
     fn strategy(&self, _: Tier) -> BoxedStrategy<Case> {
         let s = prop_oneof![
@@ -640,9 +669,11 @@ impl Suite for SessionSuite {
             1 => Just(Sess::RpIdle),
             3 => (256u16..8192, 0u16..20000, 0u16..3000).prop_map(|(buf, pre_read, resume_ms)| Sess::SpeedDownload { buf, pre_read, resume_ms }),
         ];
-        (prop::collection::vec(s, 1..=4), 0u16..300)
-            .prop_map(|(sessions, submit_at_ms)| Case { sessions, submit_at_ms })
-            .boxed()
+        prop_oneof![
+            12 => (prop::collection::vec(s, 1..=4), 0u16..300).prop_map(|(sessions, submit_at_ms)| Case { sessions, submit_at_ms }),
+            1 => (200u16..600).prop_map(|ack_delay_ms| Case { sessions: vec![Sess::PingH2SlowAck { ack_delay_ms }], submit_at_ms: 0 }),
+        ]
+        .boxed()
     }
     fn cases(&self, tier: Tier) -> u64 {
         tier.pick(8000, 200_000)
@@ -671,6 +702,10 @@ impl Suite for SessionSuite {
                     v.push("h2-request-in-flight-at-the-submission");
                     slow = true;
                 }
+                Sess::PingH2SlowAck { .. } => {
+                    v.push("wind-down-across-the-session-timeout");
+                    slow = true;
+                }
                 Sess::SpeedIdle | Sess::RpIdle => v.push("speedtest-or-reverse-proxy-idle"),
                 Sess::SpeedDownload { .. } => {
                     v.push("speedtest-download-in-progress");
@@ -686,7 +721,7 @@ impl Suite for SessionSuite {
         v
     }
     fn required_classes(&self) -> Vec<&'static str> {
-        vec!["nontrivial", "h1-idle", "ping-idle", "h1-tunnel", "h1-tunnel-more-than-the-transport-holds", "h2-idle", "h2-open-tunnels", "speedtest-or-reverse-proxy-idle", "speedtest-download-in-progress", "h2-request-in-flight-at-the-submission"]
+        vec!["nontrivial", "h1-idle", "ping-idle", "h1-tunnel", "h1-tunnel-more-than-the-transport-holds", "h2-idle", "h2-open-tunnels", "speedtest-or-reverse-proxy-idle", "speedtest-download-in-progress", "h2-request-in-flight-at-the-submission", "wind-down-across-the-session-timeout"]
     }
     fn check(&self, c: &Case) -> Verdict {
         run_case(c)
